@@ -35,7 +35,7 @@ def main():
     do_run = '--run-checks' in args
     only = [a for a in args if not a.startswith('--')]
     head = sh('git -C /repo rev-parse --short HEAD').stdout.strip()
-    for d in sorted(OUT.glob('C*/[A-N]')):
+    for d in sorted(OUT.glob('C*/[A-P]')):
         name = f'{d.parent.name}/{d.name}'
         if only and name not in only:
             continue
